@@ -139,21 +139,23 @@ class C06(props.BaseProp):
 
 P = props.register(C06())
 P.manifest = {
-    "text": "HOP-COUNT MODE: the model's own level-synchronous BFS is proved correct by loop invariant for every graph "
-            "and source (returns exactly the reachable nodes, each once, with their hop distances; fuel never exhausted) and, "
-            "with the exactly proved formula stage of get_node_centrality ((r-1)/tot, x (r-1)/(n-1) with wf_improved, 0 when "
-            "r<=1 or n<=1, never panics), the value reported is the closeness (C06_bfs_distances, C06_hop_count_closeness, "
-            "C06_hop_count_model_value). BOTH MODES, VERIFIED CHECKER: check_dist a s d = true => d holds the true "
-            "shortest distances from s (any integer-cost adjacency, any vector); check_transpose sound; searching the "
-            "transposed adjacency yields INCOMING distances; the value computed from a checked distance list is the "
-            "closeness of the node (C06_checked, C06_model_value_checked); one entry per node. The Run module evaluates "
-            "both checkers for every source of every generated graph (observations 62, 63). All unbounded, axiom-free.",
-    "note": "Still per-case only: the weighted (heap) search loop - its output passes the verified checker on every case, "
-            "but the loop invariant is not proved - and that `reverse()` (Model/Derived.v transcription) yields the "
-            "transposed adjacency / that an undirected adjacency is symmetric (observation 63; state-level facts of "
-            "C15/C01). Trusted: Coq kernel + vm_compute; harness/printers/diff; modelled not verified: IEEE rounding, "
-            "IntSet/IntMap iteration order (only sum and length of the result list are used), BinaryHeap ties (first/last "
-            "oracle, observation 61), rayon collect. Axioms: none.",
-    "technique": "Coq proof (BFS loop invariant, formula stage, verified distance checker) + differential correspondence "
-                 "vs vm_compute model + independent definitional oracle on the implementation",
+    "text": "BOTH MODES PROVED BY LOOP INVARIANT (unbounded, axiom-free), for every graph and every source: the model's "
+            "level-synchronous BFS (hop count; fuel never exhausted) and its heap search (positive integer weights; EVERY "
+            "tie choice of the BinaryHeap) return exactly the reachable nodes, each once, with their shortest distances; "
+            "the formula stage of get_node_centrality is proved exactly ((r-1)/tot, x (r-1)/(n-1) with wf_improved, 0 when "
+            "r<=1 or n<=1, never panics); searching the transposed adjacency yields INCOMING distances; hence the value "
+            "the model reports for a node is its closeness as defined (C06_hop_count_model_value, "
+            "C06_weighted_model_value); one entry per node. In addition a VERIFIED CHECKER (check_dist sound for any "
+            "integer-cost adjacency and any vector; check_transpose sound) is evaluated for every source of every "
+            "generated graph (observations 62, 63).",
+    "note": "Per-case only (observation 63): that `reverse()` (Model/Derived.v transcription) yields the transposed "
+            "adjacency and that an undirected adjacency is symmetric - facts about graph construction (C15/C01). Not "
+            "proved: fuel of the weighted loop never exhausted (theorems are for runs that return; none ever ran out). "
+            "Positive weights are a hypothesis of the weighted theorems (the property's own premise; check_dist also "
+            "verifies it per case). Trusted: Coq kernel + vm_compute; harness/printers/diff; modelled not verified: IEEE "
+            "rounding, IntSet/IntMap iteration order (only sum and length of the result list are used), BinaryHeap (as "
+            "'some minimal entry', quantified over in the theorems; observation 61 also compares first/last per case), "
+            "rayon collect. Axioms: none.",
+    "technique": "Coq proof (BFS and Dijkstra loop invariants, formula stage, verified distance checker) + differential "
+                 "correspondence vs vm_compute model + independent definitional oracle on the implementation",
 }
